@@ -77,6 +77,7 @@ type Interp struct {
 	paths        int
 	Steps        int
 	Overflow     bool
+	reps         map[memKey]ssa.Value
 }
 
 // Outcome of following one path.
@@ -154,7 +155,63 @@ func cmpInt(op token.Token, a, b int64) (bool, bool) {
 	return false, false
 }
 
+// memRep returns the canonical representative of the memory cell
+// (alloc, field): the first FieldAddr of that field on that Alloc.
+func (ip *Interp) memRep(fa *ssa.FieldAddr) ssa.Value {
+	al, ok := fa.X.(*ssa.Alloc)
+	if !ok {
+		return nil
+	}
+	if ip.reps == nil {
+		ip.reps = map[memKey]ssa.Value{}
+	}
+	k := memKey{al, fa.Field}
+	if r, ok := ip.reps[k]; ok {
+		return r
+	}
+	var rep ssa.Value
+	for _, b := range ip.Fn.Blocks {
+		for _, in := range b.Instrs {
+			if x, ok := in.(*ssa.FieldAddr); ok && x.X == al && x.Field == fa.Field && rep == nil {
+				rep = x
+			}
+		}
+	}
+	ip.reps[k] = rep
+	return rep
+}
+
+// FieldOf returns the abstract content of field `field` of a local struct Alloc.
+func (ip *Interp) FieldOf(al *ssa.Alloc, field int, env map[ssa.Value]AVal) AVal {
+	if ip.reps == nil {
+		ip.reps = map[memKey]ssa.Value{}
+	}
+	for _, r := range *al.Referrers() {
+		if fa, ok := r.(*ssa.FieldAddr); ok && fa.Field == field {
+			if rep := ip.memRep(fa); rep != nil {
+				if a, ok := env[rep]; ok {
+					return a
+				}
+			}
+		}
+	}
+	return top
+}
+
+type memKey struct {
+	al    *ssa.Alloc
+	field int
+}
+
 func (ip *Interp) eval(in ssa.Instruction, env map[ssa.Value]AVal) {
+	if st, ok := in.(*ssa.Store); ok {
+		if fa, ok := st.Addr.(*ssa.FieldAddr); ok {
+			if rep := ip.memRep(fa); rep != nil {
+				env[rep] = ip.val(st.Val, env)
+			}
+		}
+		return
+	}
 	v, isVal := in.(ssa.Value)
 	if !isVal {
 		return
@@ -197,10 +254,30 @@ func (ip *Interp) eval(in ssa.Instruction, env map[ssa.Value]AVal) {
 		}
 		env[v] = top
 	case *ssa.UnOp:
+		if x.Op == token.MUL {
+			if fa, ok := x.X.(*ssa.FieldAddr); ok {
+				if rep := ip.memRep(fa); rep != nil {
+					if a, ok := env[rep]; ok {
+						env[v] = a
+						return
+					}
+				}
+			}
+			env[v] = top
+			return
+		}
 		a := ip.val(x.X, env)
 		if x.Op == token.NOT && a.Kind == aBool {
 			env[v] = AVal{Kind: aBool, B: !a.B}
 			return
+		}
+		env[v] = top
+	case *ssa.FieldAddr:
+		// addresses carry no abstract value; keep memory cells (keyed by their representative) intact
+		if rep := ip.memRep(x); rep == ssa.Value(x) {
+			if _, ok := env[rep]; ok {
+				return
+			}
 		}
 		env[v] = top
 	case *ssa.Phi:
